@@ -594,7 +594,7 @@ pub fn check_cases(prelude: &str, cases: &[&Case], cfgs: &[Backend], acc: &mut A
             }
             if compared > 0 {
                 acc.count("functions_compared");
-                acc.outcome(&(c.src.as_str(), cfg.name()));
+                acc.outcome(&(prelude, c.src.as_str(), cfg.name()));
                 if acc.samples.len() < 2 {
                     acc.sample(obj(vec![("function", c.src.as_str().into()), ("target", cfg.name().into()), ("tag", c.tag.as_str().into()), ("tuples_compared", (compared as u64).into())]));
                 }
@@ -1710,6 +1710,242 @@ fn gen_depth1_operand_forms(types: &[String]) -> Vec<Case> {
     out
 }
 
+
+// ---------------------------------------------------------------------------------------------
+// small whole programs (one prelude per program): global / reference aliasing, syntactic positions of global uses and
+// of calls, scalar-to-struct casts. Shared with C02, where they exercise trampolines, implicit global parameters and
+// the braced-list form of struct casts.
+
+/// a static global passed as the out / inout argument of a function that touches the same global itself
+fn global_alias_programs() -> Vec<Space> {
+    let mut out = Vec::new();
+    let globals = "static int g = 1;\nstatic int h = 5;\nstatic int3 gv = int3(1, 2, 3);\nstatic int ga[2] = { 1, 2 };\nstruct GS { int m; int n; };\nstatic GS gs = { 1, 2 };\nvoid poke() { g += 100; }\nint peek() { return g * 2; }\n";
+    // (name, argument expression naming the global object, statement by which the callee touches the same object, read-back)
+    let touches: [(&str, &str, &str, &str); 7] = [
+        ("scalar-write", "g", "g += 10;", "g"),
+        ("scalar-through-callee", "g", "poke();", "g"),
+        ("scalar-read-through-callee", "g", "r += peek();", "g"),
+        ("scalar-read", "g", "r += g * 3;", "g"),
+        ("vector-component", "gv.x", "gv.x += 10; gv.y += 1;", "gv.x"),
+        ("array-element", "ga[1]", "ga[1] += 10;", "ga[1]"),
+        ("struct-member", "gs.m", "gs.m += 10;", "gs.m"),
+    ];
+    let modes = ["out", "inout"];
+    for k in 1..=3usize {
+        for code in 0..2usize.pow(k as u32) {
+            let ms: Vec<usize> = (0..k).map(|i| code >> i & 1).collect();
+            let mname: String = ms.iter().map(|m| modes[*m]).collect::<Vec<_>>().join(",");
+            for (tname, garg, touch, readback) in touches {
+                let params: Vec<String> = ms.iter().enumerate().map(|(i, m)| format!("{} int p{}", modes[*m], i)).collect();
+                let mut body = String::from("int r = 0; ");
+                for (i, m) in ms.iter().enumerate() {
+                    if *m == 0 {
+                        body.push_str(&format!("p{} = {}; ", i, i + 2));
+                    } else {
+                        body.push_str(&format!("p{} += {}; ", i, i + 2));
+                    }
+                }
+                body.push_str(touch);
+                body.push_str(&format!(" r += {}; ", readback));
+                for i in 0..k {
+                    body.push_str(&format!("p{} = p{} * 2 + 1; ", i, i));
+                }
+                body.push_str(&format!("r = r * 10 + {}; return r;", readback));
+                let prelude = format!("{}int callee({}) {{ {} }}\n", globals, params.join(", "), body);
+                let mut cases = Vec::new();
+                for pos in 0..k {
+                    let args: Vec<String> = (0..k).map(|q| if q == pos { garg.to_string() } else { format!("v{}", q) }).collect();
+                    let decls: String = (0..k).filter(|q| *q != pos).map(|q| format!("int v{} = a + {}; ", q, q)).collect();
+                    let obs: String = (0..k).filter(|q| *q != pos).map(|q| format!(" + v{} * {}", q, q * 4 + 3)).collect();
+                    cases.push(Case { src: format!("int @(int a) {{ {}int r = callee({}); return r * 1000 + {}{}; }}", decls, args.join(", "), readback, obs), tag: format!("decl|global-alias|{}-refs", k) });
+                }
+                // the other global in the remaining reference positions as well (two different globals, still unambiguous)
+                if k >= 2 {
+                    let args: Vec<String> = (0..k).map(|q| if q == 0 { garg.to_string() } else if q == 1 { "h".to_string() } else { format!("v{}", q) }).collect();
+                    let decls: String = (2..k).map(|q| format!("int v{} = a + {}; ", q, q)).collect();
+                    cases.push(Case { src: format!("int @(int a) {{ {}int r = callee({}); return r * 1000 + {} + h * 7 + a; }}", decls, args.join(", "), readback), tag: format!("decl|global-alias|{}-refs", k) });
+                }
+                out.push(Space { name: format!("global_alias_{}_{}", mname, tname), prelude, cases });
+            }
+        }
+    }
+    out
+}
+
+/// syntactic positions in which a function can mention a global (or call a function that needs one): (name, statements, return expression)
+fn use_positions(lvalue: bool) -> Vec<(&'static str, &'static str, &'static str)> {
+    let mut v = vec![
+        ("statement", "r += $E;", "r"),
+        ("array-index", "r += t[$E & 3];", "r"),
+        ("array-index-store", "t[$E & 3] = x; r += t[0] + t[1] * 2 + t[2] * 3 + t[3] * 4;", "r"),
+        ("nested-array-index", "r += t[t[$E & 3] & 3];", "r"),
+        ("call-argument", "r += idf($E);", "r"),
+        ("if-condition", "if ($E > 2) r += 1;", "r"),
+        ("while-condition", "int n = 0; while (n < 3 && $E > n) { n++; } r += n;", "r"),
+        ("for-init", "int i; for (i = $E & 3; i < 4; i++) r += i + 1;", "r"),
+        ("for-init-declaration", "for (int i = $E & 3; i < 4; i++) r += i + 1;", "r"),
+        ("for-condition", "for (int i = 0; i < ($E & 3); i++) r += i + 1;", "r"),
+        ("for-increment", "for (int i = 0; i < 3; i += 1 + ($E & 1)) r += 1;", "r"),
+        ("do-condition", "int n = 0; do { n++; } while (n < ($E & 3)); r += n;", "r"),
+        ("switch-selector", "switch ($E & 1) { case 0: r += 5; break; default: r += 7; break; }", "r"),
+        ("ternary-condition", "r += $E > 2 ? 1 : 2;", "r"),
+        ("ternary-arm", "r += x > 0 ? $E : 1;", "r"),
+        ("initializer", "int q = $E; r += q;", "r"),
+        ("aggregate-initializer", "int q[2] = { $E, 1 }; r += q[0] * 2 + q[1];", "r"),
+        ("return", "r += 1;", "r + $E"),
+        ("cast-operand", "r += (int)(float)($E & 255);", "r"),
+        ("unary-operand", "r -= -$E;", "r"),
+        ("compound-assignment-right", "r ^= $E;", "r"),
+        ("short-circuit-right", "if (x > 100 || $E > 1) r += 3;", "r"),
+        ("comma-right", "r += (x, $E);", "r"),
+        ("constructor-argument", "r += int3($E, 2, 3).x;", "r"),
+        ("binary-operand-in-index-of-vector", "int4 w = int4(1, 2, 3, 4); r += w[$E & 3];", "r"),
+        ("default-argument-caller", "r += dflt(x, $E);", "r"),
+    ];
+    if lvalue {
+        v.extend([
+            ("out-argument", "setv($E); r += 1;", "r"),
+            ("inout-argument", "addv($E); r += 1;", "r"),
+            ("increment-in-index", "r += t[($E++) & 3];", "r"),
+            ("assignment-left", "$E = x + 4; r += 1;", "r"),
+            ("compound-assignment-left", "$E += x; r += 1;", "r"),
+        ]);
+    }
+    v
+}
+
+const POSITION_HELPERS: &str = "int idf(int v) { return v + 1; }\nvoid setv(out int o) { o = 9; }\nvoid addv(inout int o) { o += 3; }\nint dflt(int a, int b = 4) { return a * 2 + b; }\n";
+
+fn position_function(name: &str, pos: &(&str, &str, &str), e: &str, extra: &str) -> String {
+    format!("int {}(int x) {{ int t[4] = {{ 1, 2, 3, 4 }}; int r = x; {} {} return {}; }}\n", name, pos.1.replace("$E", e), extra, pos.2.replace("$E", e))
+}
+
+/// call graphs over three functions in which one function touches a global (or calls its callee) only at one syntactic position
+fn position_programs(thorough: bool) -> Vec<Space> {
+    let mut out = Vec::new();
+    let wrappers = |tag: &str| -> Vec<Case> { (0..3).map(|k| Case { src: format!("int @(int x) {{ return c{}(x); }}", k), tag: tag.to_string() }).collect() };
+    let gpos = use_positions(true);
+    let cpos = use_positions(false);
+    // A: c0 mentions GA only at position p; c1 / c2 reach it through every DAG over the three functions
+    for p in &gpos {
+        let second: Vec<Option<&(&str, &str, &str)>> = if thorough { std::iter::once(None).chain(gpos.iter().map(Some)).collect() } else { vec![None, Some(&gpos[0])] };
+        for q in &second {
+            for edges in 0..8u32 {
+                let mut prelude = String::from("static int GA = 1;\nstatic int GB = 2;\n");
+                prelude.push_str(POSITION_HELPERS);
+                prelude.push_str(&position_function("c0", p, "GA", ""));
+                let c1_calls = if edges & 1 == 1 { "r = r * 3 + c0(x + 1);" } else { "" };
+                match q {
+                    Some(q) => prelude.push_str(&position_function("c1", q, "GB", c1_calls)),
+                    None => prelude.push_str(&format!("int c1(int x) {{ int r = x; {} return r; }}\n", c1_calls)),
+                }
+                let mut c2 = String::new();
+                if edges & 2 == 2 {
+                    c2.push_str(" r = r * 3 + c0(x + 2);");
+                }
+                if edges & 4 == 4 {
+                    c2.push_str(" r = r * 5 + c1(x + 3);");
+                }
+                prelude.push_str(&format!("int c2(int x) {{ int r = x;{} return r; }}\n", c2));
+                out.push(Space { name: format!("gpos_{}_{}_{}", p.0, q.map(|q| q.0).unwrap_or("none"), edges), prelude, cases: wrappers(&format!("decl|global-position|{}", p.0)) });
+            }
+        }
+    }
+    // other kinds of global objects: the position is the base of a swizzle / member / subscript / method call
+    for (name, decl, stmt) in [
+        ("swizzle-base", "static int3 GV = int3(1, 2, 3);\n", "r += GV.y; GV.x += x;"),
+        ("swizzle-base-in-index", "static int3 GV = int3(1, 2, 3);\n", "r += t[GV.y & 3];"),
+        ("member-base", "struct PS { int m; int n; int get() { return m * 2 + n; } };\nstatic PS GS = { 1, 2 };\n", "r += GS.m; GS.n += x;"),
+        ("member-base-in-index", "struct PS { int m; int n; int get() { return m * 2 + n; } };\nstatic PS GS = { 1, 2 };\n", "r += t[GS.n & 3];"),
+        ("method-object", "struct PS { int m; int n; int get() { return m * 2 + n; } };\nstatic PS GS = { 1, 2 };\n", "r += GS.get();"),
+        ("method-object-in-index", "struct PS { int m; int n; int get() { return m * 2 + n; } };\nstatic PS GS = { 1, 2 };\n", "r += t[GS.get() & 3];"),
+        ("subscript-base", "static int GR[4] = { 5, 6, 7, 8 };\n", "r += GR[x & 3]; GR[1] += 1;"),
+        ("subscript-base-and-index", "static int GR[4] = { 1, 2, 3, 0 };\n", "r += GR[GR[x & 3]];"),
+        ("index-of-local-array-of-arrays", "static int GI = 1;\n", "int m[2][2] = { { 1, 2 }, { 3, 4 } }; r += m[GI & 1][x & 1] + m[x & 1][GI & 1];"),
+        ("default-argument-of-callee", "static int GD = 6;\nint dg(int a, int b = GD) { return a * 2 + b; }\n", "r += dg(x);"),
+        ("global-initializer-of-global", "static int GX = 3;\nstatic int GY = GX + 1;\n", "r += GY;"),
+    ] {
+        for edges in 0..8u32 {
+            let mut prelude = String::from(decl);
+            prelude.push_str(&format!("int c0(int x) {{ int t[4] = {{ 1, 2, 3, 4 }}; int r = x; {} return r; }}\n", stmt));
+            prelude.push_str(&format!("int c1(int x) {{ int r = x; {} return r; }}\n", if edges & 1 == 1 { "r = r * 3 + c0(x + 1);" } else { "" }));
+            prelude.push_str(&format!("int c2(int x) {{ int r = x;{}{} return r; }}\n", if edges & 2 == 2 { " r = r * 3 + c0(x + 2);" } else { "" }, if edges & 4 == 4 { " r = r * 5 + c1(x + 3);" } else { "" }));
+            out.push(Space { name: format!("gpos_{}_{}", name, edges), prelude, cases: wrappers(&format!("decl|global-position|{}", name)) });
+        }
+    }
+    // B: c0 needs GA; c1 calls c0 only at position p; c2 calls c1 directly / at the same position / not at all
+    for p in &cpos {
+        for c2_form in 0..3 {
+            for c1_touches in [false, true] {
+                let mut prelude = String::from("static int GA = 1;\nstatic int GB = 2;\n");
+                prelude.push_str(POSITION_HELPERS);
+                prelude.push_str("int c0(int x) { GA += x + 1; return GA * 2 + x; }\n");
+                prelude.push_str(&position_function("c1", p, "c0(x + 1)", if c1_touches { "GB += 3;" } else { "" }));
+                match c2_form {
+                    0 => prelude.push_str("int c2(int x) { int r = x; return r; }\n"),
+                    1 => prelude.push_str("int c2(int x) { int r = x; r = r * 5 + c1(x + 3); return r; }\n"),
+                    _ => prelude.push_str(&position_function("c2", p, "c1(x + 2)", "")),
+                }
+                out.push(Space { name: format!("cpos_{}_{}_{}", p.0, c2_form, c1_touches), prelude, cases: wrappers(&format!("decl|call-position|{}", p.0)) });
+            }
+        }
+    }
+    out
+}
+
+/// `(S)v`: a scalar cast to a struct gives every scalar slot the converted value; every member is checked
+fn struct_cast_programs() -> Vec<Space> {
+    let prelude = "struct A1 { int a; float b; uint c; bool d; };\nstruct A2 { int2 v; float3 w; };\nstruct A3 { A1 inner; int t; };\nstruct A4 { int arr[3]; int tail; };\nstruct A5 { int grid[2][3]; int tail; };\nstruct A6 { float cube[2][2][2]; uint z; };\nstruct A7 { A1 items[2]; int k; };\nstruct A8 { A5 cells[2]; float2 q; };\nstruct A9 { int2 vg[2][2]; int last; };\nstruct A10 { A3 deep[2][2]; half hh; int end; };\n";
+    let mut cases = Vec::new();
+    for (s, shape) in [
+        ("A1", "scalar-members"),
+        ("A2", "vector-members"),
+        ("A3", "nested-struct"),
+        ("A4", "array-1d"),
+        ("A5", "array-2d"),
+        ("A6", "array-3d"),
+        ("A7", "array-of-structs"),
+        ("A8", "array-of-structs-with-array-2d"),
+        ("A9", "array-2d-of-vectors"),
+        ("A10", "array-2d-of-nested-structs"),
+    ] {
+        for (pt, expr) in [("int", "v"), ("uint", "v"), ("float", "v"), ("bool", "v"), ("int", "v + 1"), ("int", "7"), ("int", "2.5f"), ("float", "-v")] {
+            cases.push(Case { src: format!("{s} @({pt} v) {{ return ({s}){expr}; }}"), tag: format!("decl|struct-cast|{}", shape) });
+            cases.push(Case { src: format!("{s} @({pt} v) {{ {s} r = ({s}){expr}; return r; }}"), tag: format!("decl|struct-cast|{}", shape) });
+        }
+    }
+    // member-by-member observation for the array shapes
+    cases.push(Case { src: "int @(int v) { A5 c = (A5)v; return c.grid[0][0] + c.grid[1][2] * 10 + c.tail * 100; }".into(), tag: "decl|struct-cast|member-read-back".into() });
+    cases.push(Case { src: "float @(int v) { A6 c = (A6)v; return c.cube[1][1][1] + c.cube[0][1][0] * 10.0f + (float)c.z * 100.0f; }".into(), tag: "decl|struct-cast|member-read-back".into() });
+    cases.push(Case { src: "int @(int v) { A8 c = (A8)v; return c.cells[1].grid[1][2] + c.cells[0].tail * 10 + (int)c.q.y * 100; }".into(), tag: "decl|struct-cast|member-read-back".into() });
+    cases.push(Case { src: "int @(int v) { A10 c = (A10)v; return c.deep[1][1].inner.a + c.deep[0][1].t * 10 + c.end * 100 + (int)c.hh * 1000; }".into(), tag: "decl|struct-cast|member-read-back".into() });
+    cases.push(Case { src: "int @(int v) { A7 c = (A7)v; c.items[1].a += 1; return c.items[1].a + c.items[0].c * 10u + c.k * 100; }".into(), tag: "decl|struct-cast|member-read-back".into() });
+    vec![Space { name: "struct_casts".into(), prelude: prelude.into(), cases }]
+}
+
+/// the small whole programs shared by C01 and C02
+pub fn program_spaces(ctx: &Ctx) -> Vec<Space> {
+    let mut v = global_alias_programs();
+    v.extend(position_programs(!ctx.quick()));
+    v.extend(struct_cast_programs());
+    v
+}
+
+/// run a list of small programs, one program per index
+pub fn run_programs(ctx: &Ctx, name: &str, programs: &[Space], backends: &[Backend], opts: &Opts, rep: &mut Report) {
+    let r = run_par(ctx, programs.len() as u64, 4, |i, acc| {
+        let sp = &programs[i as usize];
+        for chunk in sp.cases.chunks(UNIT) {
+            let cs: Vec<&Case> = chunk.iter().collect();
+            acc.add("functions_generated", cs.len() as u64);
+            check_cases(&sp.prelude, &cs, backends, acc, opts);
+        }
+        acc.count("whole_programs");
+    });
+    rep.cov(&format!("programs_{}", name), Json::Int(programs.len() as i64));
+    rep.absorb(name, r);
+}
+
 // ---------------------------------------------------------------------------------------------
 // spaces
 
@@ -1768,7 +2004,7 @@ pub fn spaces(ctx: &Ctx) -> Vec<Space> {
 
 pub fn run(ctx: &Ctx) -> i32 {
     let mut rep = Report::new("exploration");
-    rep.rule = "a function counts when the type checker accepted it, the exporter produced text, the text was re-read without the type checker and at least one argument tuple was evaluated by both interpreters; distinct = different (function source, target)".into();
+    rep.rule = "a function counts when the type checker accepted it, the exporter produced text, the text was re-read without the type checker and at least one argument tuple was evaluated by both interpreters; distinct = different (prelude, function source, target)".into();
     let opts = Opts { cap: 100, verbose: false, only_args: None };
     for sp in spaces(ctx) {
         let n_units = sp.cases.len().div_ceil(UNIT) as u64;
@@ -1782,6 +2018,8 @@ pub fn run(ctx: &Ctx) -> i32 {
         rep.cov(&format!("functions_{}", sp.name), Json::Int(sp.cases.len() as i64));
         rep.absorb(&sp.name, r);
     }
+    let programs = program_spaces(ctx);
+    run_programs(ctx, "whole_programs", &programs, &HLSL_BACKENDS, &opts, &mut rep);
     rep.cov("targets", Json::Arr(HLSL_BACKENDS.iter().map(|c| c.cfg().name().into()).collect()));
     rep.cov("fuel_per_evaluation", Json::Int(FUEL as i64));
     rep.cov("functions_per_compilation_unit", Json::Int(UNIT as i64));
